@@ -32,8 +32,9 @@ Record nf_opinfo := {
                                   IS the reminder *)
   oi_pdefer : bool;            (* an unforced Problem may be processed: tick, or unforced Problem request *)
   oi_recdrop : bool            (* a Recovery was requested (Checkable::OnNotificationsRequested) while notifications are
-                                  disabled globally or for the checkable, not forced: Checkable::SendNotifications drops
-                                  it before any Notification object sees it - the incident is over all the same *)
+                                  disabled globally or for the checkable, not forced, and this object is not paused:
+                                  Checkable::SendNotifications drops the request before the Notification object sees
+                                  it - the incident is over all the same *)
 }.
 
 Definition nf_mayforce (oi : nf_opinfo) (ty : nf_type) : bool := existsb (nf_type_eqb ty) (oi_forced oi).
@@ -49,7 +50,7 @@ Definition nf_opinfo_of (stash : list nf_stashed) (sup_problem : bool) (o : nf_o
   | NfRequest now x ty force =>
       {| oi_now := now; oi_ctx := x; oi_tick := false; oi_forced := if force then [ty] else []; oi_kp := 0;
          oi_pdefer := nf_type_eqb ty NfProblem && negb force;
-         oi_recdrop := nf_type_eqb ty NfRecovery && negb force && (negb (cx_glob_en x) || negb (cx_ck_en x)) |}
+         oi_recdrop := nf_type_eqb ty NfRecovery && negb force && (negb (cx_glob_en x) || negb (cx_ck_en x)) && negb (cx_paused x) |}
   | NfTick now x =>
       {| oi_now := now; oi_ctx := x; oi_tick := true; oi_forced := map sh_type (filter sh_force stash);
          oi_kp := nf_count_problem stash + (if sup_problem && nf_reason_applies x NfProblem then 1 else 0);
@@ -64,9 +65,6 @@ Record nf_ghost := {
   g_inc : list Z;          (* users sent a Problem since the last Recovery notification that was processed (NfoClr)
                               and not merely withheld by the notification's closed period *)
   g_pre : list Z;          (* g_inc as it was just before the NfoClr that immediately precedes (the Recovery's own incident) *)
-  g_all : list Z;          (* like g_inc, but not reset by a Recovery request that Checkable::SendNotifications dropped
-                              (oi_recdrop): this is what notified_problem_users holds *)
-  g_pall : list Z;         (* g_all just before the NfoClr that immediately precedes *)
   g_last : list (Z * Z);   (* state of the last Problem each user was sent since the last NfoClr *)
   g_ps : bool;             (* a Problem passed the notification's filters since the last NfoClr / times.begin deferral *)
   g_bad : bool;            (* ... and after it a non-Custom, non-Problem, non-Recovery notification passed them *)
@@ -74,9 +72,9 @@ Record nf_ghost := {
   g_tm : Z;                (* instant of the current operation *)
   g_cnt : Z                (* Problem notifications that reached the per-user loop so far in the current operation *)
 }.
-Definition nf_mkg inc pre all pall last ps bad rem tm cnt : nf_ghost :=
-  {| g_inc := inc; g_pre := pre; g_all := all; g_pall := pall; g_last := last; g_ps := ps; g_bad := bad; g_rem := rem; g_tm := tm; g_cnt := cnt |}.
-Definition nf_ghost0 : nf_ghost := nf_mkg [] [] [] [] [] false false None 0 0.
+Definition nf_mkg inc pre last ps bad rem tm cnt : nf_ghost :=
+  {| g_inc := inc; g_pre := pre; g_last := last; g_ps := ps; g_bad := bad; g_rem := rem; g_tm := tm; g_cnt := cnt |}.
+Definition nf_ghost0 : nf_ghost := nf_mkg [] [] [] false false None 0 0.
 
 Definition nf_add_all (sent l : list Z) : list Z := fold_left (fun l u => nf_npu_add u l) sent l.
 Definition nf_upd_all (st : Z) (sent : list Z) (l : list (Z * Z)) : list (Z * Z) :=
@@ -89,10 +87,10 @@ Definition nf_may_defer (c : nf_cfg) (oi : nf_opinfo) : bool :=
 
 Definition nf_g_mask (c : nf_cfg) (oi : nf_opinfo) (g : nf_ghost) : nf_ghost :=
   if nf_may_defer c oi
-  then nf_mkg (g_inc g) (g_pre g) (g_all g) (g_pall g) (g_last g) false (g_bad g) None (g_tm g) (g_cnt g) else g.
+  then nf_mkg (g_inc g) (g_pre g) (g_last g) false (g_bad g) None (g_tm g) (g_cnt g) else g.
 
 Definition nf_g_start (c : nf_cfg) (oi : nf_opinfo) (g : nf_ghost) : nf_ghost :=
-  nf_g_mask c oi (nf_mkg (if oi_recdrop oi then [] else g_inc g) (g_pre g) (g_all g) (g_pall g) (g_last g)
+  nf_g_mask c oi (nf_mkg (if oi_recdrop oi then [] else g_inc g) (g_pre g) (g_last g)
                          (if oi_recdrop oi then false else g_ps g) (g_bad g)
                          (if oi_now oi <? g_tm g then None else g_rem g) (oi_now oi) 0).
 
@@ -105,16 +103,15 @@ Definition nf_g_ev (c : nf_cfg) (oi : nf_opinfo) (g : nf_ghost) (e : nf_oev) : n
     | NfoClr =>
         (* a Recovery withheld only by the closed period is kept for re-sending (suppressed_notifications):
            the incident is not over for the recipients *)
-        nf_mkg (if nf_rec_deferred oi then g_inc g else []) (g_inc g)
-               (if nf_rec_deferred oi then g_all g else []) (g_all g) [] false false (g_rem g) (g_tm g) (g_cnt g)
+        nf_mkg (if nf_rec_deferred oi then g_inc g else []) (g_inc g) [] false false (g_rem g) (g_tm g) (g_cnt g)
     | NfoDone ty sent =>
         if nf_type_eqb ty NfProblem then
-          nf_mkg (nf_add_all sent (g_inc g)) [] (nf_add_all sent (g_all g)) []
+          nf_mkg (nf_add_all sent (g_inc g)) []
                  (nf_upd_all (nf_api_state (nfc_svc c) (cx_raw (oi_ctx oi))) sent (g_last g))
                  true false (Some (oi_now oi)) (g_tm g) (g_cnt g + 1)
-        else if nf_type_eqb ty NfRecovery then nf_mkg [] [] [] [] [] false false (g_rem g) (g_tm g) (g_cnt g)
-        else if nf_type_eqb ty NfCustom then nf_mkg (g_inc g) [] (g_all g) [] (g_last g) (g_ps g) (g_bad g) (g_rem g) (g_tm g) (g_cnt g)
-        else nf_mkg (g_inc g) [] (g_all g) [] (g_last g) (g_ps g) true (g_rem g) (g_tm g) (g_cnt g)
+        else if nf_type_eqb ty NfRecovery then nf_mkg [] [] [] false false (g_rem g) (g_tm g) (g_cnt g)
+        else if nf_type_eqb ty NfCustom then nf_mkg (g_inc g) [] (g_last g) (g_ps g) (g_bad g) (g_rem g) (g_tm g) (g_cnt g)
+        else nf_mkg (g_inc g) [] (g_last g) (g_ps g) true (g_rem g) (g_tm g) (g_cnt g)
     end.
 
 Definition nf_g_evs (c : nf_cfg) (oi : nf_opinfo) (g : nf_ghost) (es : list nf_oev) : nf_ghost :=
@@ -147,14 +144,7 @@ Definition nf_okB (c : nf_cfg) (oi : nf_opinfo) (g : nf_ghost) (ty : nf_type) (u
                      && (nf_mem u (if nf_type_eqb ty NfRecovery then g_pre g else g_inc g)
                          || negb (nf_passes (nfu_types ur) 32))) (cx_users (oi_ctx oi)).
 
-(* the same against what notified_problem_users holds *)
-Definition nf_okBall (c : nf_cfg) (oi : nf_opinfo) (g : nf_ghost) (ty : nf_type) (u : Z) : bool :=
-  existsb (fun ur => (nfu_id ur =? u) && nfu_enable ur
-                     && (nf_mayforce oi ty || nf_full_ok c (oi_now oi) (oi_ctx oi) ty ur)
-                     && (nf_mem u (if nf_type_eqb ty NfRecovery then g_pall g else g_all g)
-                         || negb (nf_passes (nfu_types ur) 32))) (cx_users (oi_ctx oi)).
-
-Inductive nf_verdict := NfVOk | NfVStale | NfVNoMore | NfVBad (code : Z).
+Inductive nf_verdict := NfVOk | NfVNoMore | NfVBad (code : Z).
 
 Definition nf_check (c : nf_cfg) (oi : nf_opinfo) (g : nf_ghost) (e : nf_oev) : nf_verdict :=
   match e with
@@ -177,8 +167,7 @@ Definition nf_check (c : nf_cfg) (oi : nf_opinfo) (g : nf_ghost) (e : nf_oev) : 
       else if isrem && negb (nf_rem_ctx_ok c x) then NfVBad 4
       else if isrem && negb (match g_rem g with Some t => t + nfc_interval c <=? now | None => true end) then NfVBad 5
       (* 2: Recovery / Acknowledgement recipients *)
-      else if isra && negb (forallb (nf_okB c oi g ty) sent) then
-        (if forallb (nf_okBall c oi g ty) sent then NfVStale else NfVBad 2)
+      else if isra && negb (forallb (nf_okB c oi g ty) sent) then NfVBad 2
       (* 6: interval 0 *)
       else if isrem && (nfc_interval c <=? 0) && g_ps g then (if g_bad g then NfVNoMore else NfVBad 6)
       else NfVOk
@@ -209,9 +198,9 @@ Fixpoint nf_verdicts (c : nf_cfg) (g : nf_ghost) (se : list nf_stashed) (sp : bo
   end.
 
 Definition nf_is_bad (v : nf_verdict) : bool := match v with NfVBad _ => true | _ => false end.
-Definition nf_is_known (v : nf_verdict) : bool := match v with NfVStale | NfVNoMore => true | _ => false end.
+Definition nf_is_known (v : nf_verdict) : bool := match v with NfVNoMore => true | _ => false end.
 Definition nf_verdict_code (v : nf_verdict) : Z :=
-  match v with NfVOk => 0 | NfVStale => 100 | NfVNoMore => 101 | NfVBad k => k end.
+  match v with NfVOk => 0 | NfVNoMore => 101 | NfVBad k => k end.
 
 Fixpoint nf_first (p : nf_verdict -> bool) (idx : Z) (l : list (list nf_verdict)) : option (Z * Z) :=
   match l with
